@@ -236,6 +236,7 @@ func runBatchSequential(ctx context.Context, node Node, items []Result, results 
 		if ctx.Err() != nil {
 			results[i] = NewErrorResult(fmt.Errorf("context cancelled"))
 			if errorHandling == "stop" {
+				fillSkipped(results[i+1:], fmt.Errorf("context cancelled"))
 				break
 			}
 			continue
@@ -245,6 +246,7 @@ func runBatchSequential(ctx context.Context, node Node, items []Result, results 
 		if err != nil {
 			results[i] = NewErrorResult(err)
 			if errorHandling == "stop" {
+				fillSkipped(results[i+1:], fmt.Errorf("batch stopped due to error"))
 				break
 			}
 		} else {
@@ -254,6 +256,14 @@ func runBatchSequential(ctx context.Context, node Node, items []Result, results 
 				results[i] = NewResult(execResult)
 			}
 		}
+	}
+}
+
+// fillSkipped marks the slots of items that were never executed, so that Post
+// does not mistake them for successful nil results.
+func fillSkipped(results []Result, err error) {
+	for i := range results {
+		results[i] = NewErrorResult(err)
 	}
 }
 
